@@ -27,10 +27,10 @@ class Transcript:
 
 
 class Sink:
-    def __init__(self):
+    def __init__(self, host="127.0.0.1", port=0):
         self.ls = socket.socket(socket.AF_INET, socket.SOCK_STREAM)
         self.ls.setsockopt(socket.SOL_SOCKET, socket.SO_REUSEADDR, 1)
-        self.ls.bind(("127.0.0.1", 0))
+        self.ls.bind((host, port))
         self.ls.listen(8)
         self.port = self.ls.getsockname()[1]
         self.thread = None
